@@ -24,10 +24,11 @@ FLOORS = {"sources": 100, "kernel_calls": 2500, "hit_counters_checked": 100000, 
           "passthrough_lines_checked": 2000, "nested_block_cases": 8, "launch_geometries_seen": 100,
           "expression_limits": 60, "kernels_inside_included_file": 40,
           "signed_index_arithmetic_checked": 50000, "directives_after_a_comment": 60,
-          "files_included_by_two_directives": 20}
+          "files_included_by_two_directives": 20, "targets_not_named_by_a_directive_with_missing_file": 60,
+          "blocks_with_smaller_bound_checked": 200, "cuda_block_size_changed_between_calls": 40}
 FLOORS.update({"target:" + t: 300 for t in TARGETS})
 RULE = ("generated kernel sources from the annotation vocabulary (1-3 vectorize_over/end_vectorize blocks, "
-        "limits that are identifiers or blank-free expressions, the whole kernel optionally inside an included file, "
+        "limits that are identifiers or blank-free expressions, an earlier block possibly bounded by n/2 while the launch size is n, the whole kernel optionally inside an included file, an include directive for other targets whose file is missing, the CUDA block size lowered between two calls with the same n, "
         "only_for_context lines inside and outside blocks, include_file ... for_context with files in a temp folder, "
         "/*gpukern*/ /*gpufun*/ /*gpuglmem*/ /*restrict*/, unannotated marker lines) x n in {0,1,2,block-1,block,block+1,"
         "2*block+3,1000} x block size {1,2,7,256} x targets {cpu_serial, cpu_openmp ('auto' and 2 threads) through the "
@@ -84,6 +85,12 @@ def gen_source(rng, kname, folder, nested=False):
         else:
             L.append(f"//include_file {fn} for_context {' '.join(ctxs)}")
         meta["incs"].append((k, ctxs))
+    meta["missing_for"] = []
+    if rng.random() < 0.3:
+        # a directive for some targets whose file does not exist (a device-only helper that is not installed here):
+        # for the targets it does not name it is inert
+        meta["missing_for"] = rng.sample(TARGETS, rng.randint(1, 3))
+        L.append(f"//include_file missing_{uid}.h for_context {' '.join(meta['missing_for'])}")
     plain(f"/* unannotated comment {uid} a */")
     plain(f"/*unused*/ /*in*/ static const char XV_TAG_{uid}[] = \"/*hdr*/\"; /*out*/")
     L.append("/*gpukern*/")
@@ -121,6 +128,12 @@ def gen_source(rng, kname, folder, nested=False):
         # the limit may be any expression without blanks; the caller passes m1 = n+1 and m2 = 2n or 2n+1,
         # so every form evaluates to n (the launch size the contexts derive from n_threads)
         lim = rng.choice(["n", "n", "m1-1", "m2/2", "(m1-1)", "n+m1-m1"])
+        half = nb > 1 and b < nb - 1 and not nested and rng.random() < 0.3
+        if half:
+            # an earlier block with a smaller bound than a later one (the launch size is the larger bound n): on the
+            # CPU targets and, through its guard, on CUDA its body runs for the indices below n/2 only
+            lim = rng.choice(["n/2", "(m1-1)/2"])
+            meta.setdefault("half", []).append(b)
         if lim != "n":
             meta["expr_limits"] = meta.get("expr_limits", 0) + 1
         L.append(f"  int ii{b}; //vectorize_over ii{b} {lim}")
@@ -128,7 +141,7 @@ def gen_source(rng, kname, folder, nested=False):
         if b == 0:
             # the index takes part in signed arithmetic (a centred coordinate): same result on every target
             plain(f"    dv[ii{b}] = (ii{b} - 5) * 0.5 + (ii{b} - n / 2 < 0 ? -1000.0 : 0.0);")
-        for _ in range(rng.randint(0, 2)):
+        for _ in range(0 if half else rng.randint(0, 2)):
             ctx_line(True)
         if nested and b == 0:
             L.append(f"  int jj; //vectorize_over jj n")
@@ -191,6 +204,11 @@ def run_case(w, rng):
     nvals = sorted({0, 1, 2, max(block - 1, 0), block, block + 1, 2 * block + 3, 1000})
     try:
         for target in TARGETS:
+            if target in meta["missing_for"]:
+                w.count("targets_named_by_a_directive_with_missing_file")
+                continue  # the file is needed there and does not exist: nothing to run
+            if meta["missing_for"]:
+                w.count("targets_not_named_by_a_directive_with_missing_file")
             # ---- build through the real context
             try:
                 if target.startswith("cpu"):
@@ -256,15 +274,11 @@ def run_case(w, rng):
                     if target == "opencl" and geo[0] != n:
                         viol("opencl-launch-geometry", f"n={n}: global size {geo}")
                 case = f"n={n} block={block}"
-                for b, hh in enumerate(hits):
-                    w.count("hit_counters_checked", n)
-                    if n and not np.all(hh[:n] == 1):
-                        bad = np.nonzero(hh[:n] != 1)[0]
-                        viol(f"block-body-not-once-per-index|{target}", f"{case}: block {b} index {int(bad[0])} executed {int(hh[bad[0]])} times ({len(bad)} indices wrong)")
-                    if np.any(hh[n:] != 0):
-                        viol(f"block-body-ran-past-n|{target}", f"{case}: block {b} touched indices >= n: {np.nonzero(hh[n:])[0][:4] + n}")
+                _check_hits(w, viol, meta, target, case, n, hits)
                 ii = np.arange(n)
                 want_dv = (ii - 5) * 0.5 + np.where(ii - n // 2 < 0, -1000.0, 0.0)
+                if 0 in meta.get("half", []) and target != "opencl":
+                    want_dv[n // 2:] = 7777.0
                 w.count("signed_index_arithmetic_checked", n)
                 if not np.array_equal(dv[:n], want_dv) or np.any(dv[n:] != 7777.0):
                     badi = int(np.nonzero(dv[:n] != want_dv)[0][0]) if n and np.any(dv[:n] != want_dv) else n
@@ -285,11 +299,44 @@ def run_case(w, rng):
                     wantk = (40 + k) if (target in ctxs and ran) else 0
                     if int(flags[4 + k]) != wantk:
                         viol(f"include-file-context-wrong|{target}", f"{case}: include {k} for {ctxs}: flag {int(flags[4 + k])}, expected {wantk}")
+            if target == "cuda" and block > 1 and not seen:
+                # the documented per-kernel knob: the block size is lowered between two calls with the same n
+                k = ctx.kernels[uid]
+                n = rng.choice([block + 1, 2 * block + 3, 1000])
+                for bs in (block, rng.choice([1, max(1, block // 2), block - 1])):
+                    k.block_size = bs
+                    hits = [np.zeros(n + GUARD, dtype=np.int32) for _ in range(meta["nblocks"])]
+                    kw = {"n": n, "m1": n + 1, "m2": 2 * n, "flags": _wrap(target, np.zeros(8, dtype=np.int32)),
+                          "dv": _wrap(target, np.full(n + GUARD, 7777.0))}
+                    for b, hh in enumerate(hits):
+                        kw[f"hits{b}"] = _wrap(target, hh)
+                    try:
+                        k(**kw)
+                    except Exception as e:
+                        viol(f"call-failed|{target}|{type(e).__name__}", f"n={n} block size {bs}: {str(e)[-800:]}")
+                        break
+                    w.count("kernel_calls")
+                    _check_hits(w, viol, meta, target, f"n={n} block size changed from {block} to {bs}", n, hits)
+                w.count("cuda_block_size_changed_between_calls")
             w.case([meta["nblocks"], len(meta["incs"]), meta.get("nctx", 0), target, block], None)
         w.case(["source", meta["nblocks"], len(meta["incs"]), nested, block],
                sample=dict(source=text, block=block, n=nvals) if rng.random() < 0.1 else None)
     finally:
         shutil.rmtree(folder, ignore_errors=True)
+
+
+def _check_hits(w, viol, meta, target, case, n, hits):
+    for b, hh in enumerate(hits):
+        # an earlier block may have the smaller bound n/2; OpenCL has no guard: every work-item of the launch runs it
+        nb_ = n // 2 if (b in meta.get("half", []) and target != "opencl") else n
+        if nb_ != n:
+            w.count("blocks_with_smaller_bound_checked")
+        w.count("hit_counters_checked", n)
+        if nb_ and not np.all(hh[:nb_] == 1):
+            bad = np.nonzero(hh[:nb_] != 1)[0]
+            viol(f"block-body-not-once-per-index|{target}", f"{case}: block {b} (bound {nb_}) index {int(bad[0])} executed {int(hh[bad[0]])} times ({len(bad)} indices wrong)")
+        if np.any(hh[nb_:] != 0):
+            viol(f"block-body-ran-past-n|{target}", f"{case}: block {b} touched indices >= its bound {nb_}: {np.nonzero(hh[nb_:])[0][:4] + nb_}")
 
 
 def _wrap(target, arr):
